@@ -3,6 +3,7 @@
 mod alloc;
 mod canon;
 mod cases;
+mod idcheck;
 mod master;
 mod paths;
 mod query;
